@@ -80,6 +80,8 @@ var xUnits = []xUnit{
 	{Name: "tr_WriteUint16", Dir: "tars/protocol/codec", Func: "Buffer.WriteUint16", Writer: codecWriter},
 	{Name: "tr_WriteUint32", Dir: "tars/protocol/codec", Func: "Buffer.WriteUint32", Writer: codecWriter},
 	{Name: "tr_WriteString", Dir: "tars/protocol/codec", Func: "Buffer.WriteString", Writer: codecWriter},
+	{Name: "tr_WriteFloat32", Dir: "tars/protocol/codec", Func: "Buffer.WriteFloat32", Writer: codecWriter},
+	{Name: "tr_WriteFloat64", Dir: "tars/protocol/codec", Func: "Buffer.WriteFloat64", Writer: codecWriter},
 	// selector.BuildStaticWeightList up to the scaling range: static-weight check, min / max weight, guard, clamp
 	{Name: "tr_BSWL_range", Dir: "tars/selector", Func: "BuildStaticWeightList", From: "^", To: "if minWeight > 0 {",
 		Outs: []string{"maxRange", "totalWeight", "minWeight", "maxWeight"}},
@@ -93,6 +95,7 @@ var xUnits = []xUnit{
 	rdUnit("tr_SkipTo", "SkipTo", true, ""), rdUnit("tr_ReadInt8", "ReadInt8", true, ""), rdUnit("tr_ReadInt16", "ReadInt16", true, ""),
 	rdUnit("tr_ReadInt64", "ReadInt64", true, ""), rdUnit("tr_ReadUint8", "ReadUint8", true, ""), rdUnit("tr_ReadUint16", "ReadUint16", true, ""),
 	rdUnit("tr_ReadUint32", "ReadUint32", true, ""), rdUnit("tr_ReadBool", "ReadBool", true, ""), rdUnit("tr_ReadString", "ReadString", true, ""),
+	rdUnit("tr_ReadFloat32", "ReadFloat32", true, ""), rdUnit("tr_ReadFloat64", "ReadFloat64", true, ""),
 	rdUnit("tr_ReadSliceUint8", "ReadSliceUint8", false, ""), rdUnit("tr_ReadBytes", "ReadBytes", false, ""),
 	// ServantProxy.genRequestID: the compare-and-swap step, then the add loop (one sequential call is the two in a row)
 	{Name: "tr_genRequestID_cas", Dir: "tars", Func: "ServantProxy.genRequestID", Globals: []string{"maxInt32"}, State: msgIDCounter,
@@ -100,6 +103,23 @@ var xUnits = []xUnit{
 		After: []string{"for {\n\n\tif v := atomic.AddInt32(&msgID, 1); v != 0 {\n\t\treturn v\n\t}\n}"}},
 	{Name: "tr_genRequestID_loop", Dir: "tars", Func: "ServantProxy.genRequestID", State: msgIDCounter, Fuel: true, Group: "reqid",
 		From: "for {", To: "for {", After: []string{}},
+	// the selectors' Select: cursor / hash / draw arithmetic and the table lookups (locks left out; hash code and random
+	// draws are oracles); the consistent hash lookup with sort.Search
+	{Name: "tr_rr_Select", Dir: "tars/selector/roundrobin", Func: "RoundRobin.Select", Recv: true,
+		Ignore: []string{"r.RLock()", "defer r.RUnlock()"}, Errs: map[string]bool{"errors.New": true}},
+	{Name: "tr_mh_Select", Dir: "tars/selector/modhash", Func: "ModHash.Select", Recv: true,
+		Ignore: []string{"m.RLock()", "defer m.RUnlock()"}, Errs: map[string]bool{"errors.New": true},
+		Oracles: map[string]xOracle{"msg.HashCode()": {"hashCode_", "Z"}}},
+	{Name: "tr_rnd_Select", Dir: "tars/selector/random", Func: "Random.Select", Recv: true,
+		Ignore: []string{"r.Lock()", "defer r.Unlock()"}, Errs: map[string]bool{"errors.New": true},
+		Oracles: map[string]xOracle{"r.rand.Intn(len(r.staticWeightRouterCache))": {"draw_cache", "Z"}, "r.rand.Intn(len(r.endpoints))": {"draw_eps", "Z"}}},
+	{Name: "tr_ch_FindInt32", Dir: "tars/selector/consistenthash", Func: "ConsistentHash.FindInt32", Recv: true,
+		Ignore: []string{"c.RLock()", "defer c.RUnlock()"}},
+	// rtimer.TimeWheel.After: the bound check and the slot computation (the slot's channel is taken after the translated statements)
+	{Name: "tr_tw_After_pos", Dir: "tars/util/rtimer", Func: "TimeWheel.After", Recv: true,
+		From: "^", To: "pos = (tw.currPos + pos) % len(tw.timeWheel)", Outs: []string{"pos"},
+		After:  []string{"c := tw.timeWheel[pos]", "tw.lock.Unlock()", "return c"},
+		Ignore: []string{"tw.lock.Lock()"}, Oracles: map[string]xOracle{"len(tw.timeWheel)": {"wheel_size", "Z"}}},
 	// the registry <-> endpoint conversions (Tars2endpoint without its cache key)
 	{Name: "tr_Endpoint2tars", Dir: "tars/util/endpoint", Func: "Endpoint2tars"},
 	{Name: "tr_Tars2endpoint_build", Dir: "tars/util/endpoint", Func: "Tars2endpoint", From: "^", To: "e := Endpoint{",
@@ -112,6 +132,10 @@ var xUnits = []xUnit{
 	// ... and its scaling loop: every static weight scaled to the range, positive ones summed and recorded
 	{Name: "tr_BSWL_scale", Dir: "tars/selector", Func: "BuildStaticWeightList", From: "var weightToId []pair", To: "for idx, node := range endpoints {",
 		Outs: []string{"totalWeight", "weightToId", "idToWeight", "staticWeightRouterCache"}},
+	// ... and the smooth-weighted-round-robin rounds: sort by (current value, String()), take the last, re-weigh
+	{Name: "tr_BSWL_rounds", Dir: "tars/selector", Func: "BuildStaticWeightList", From: "for i := 0; i < totalWeight; i++ {", To: "return staticWeightRouterCache",
+		After: []string{}, Fresh: []string{"weightToId", "staticWeightRouterCache"},
+		Methods: map[string]xOracle{"String": {"ep_string", "go_endpoint_Endpoint -> list N"}}},
 	// the end of endpoint.Parse: from the flag variables to the Endpoint value (without its cache key)
 	{Name: "tr_Parse_build", Dir: "tars/util/endpoint", Func: "Parse", From: "isTcp := int32(0)", To: "e := Endpoint{",
 		Outs: []string{"e"}, After: []string{"e.Key = e.String()", "return e"}},
@@ -147,7 +171,7 @@ func newXLoader(root string) *xLoader {
 }
 
 func (l *xLoader) Import(path string) (*types.Package, error) {
-	if path == "encoding/binary" || path == "math" || path == "bytes" || path == "time" || path == "io" || path == "sync/atomic" {
+	if path == "encoding/binary" || path == "math" || path == "bytes" || path == "time" || path == "io" || path == "sync/atomic" || path == "sort" {
 		return l.std.Import(path)
 	}
 	if l.mod != "" && strings.HasPrefix(path, l.mod+"/") {
@@ -253,10 +277,15 @@ func xlateUnit(root string, u *xUnit, units []xUnit, ld *xLoader, records map[st
 	}
 	// results
 	var rts []string
+	opaqueRes := false
 	if fd.Type.Results != nil {
 		for _, f := range fd.Type.Results.List {
 			// named results are accepted as long as the body never mentions them (they are not declared here, and a
 			// return without values is rejected)
+			if u.From != "" && !x.translatable(x.typeOf(f.Type)) { // a slice need not return: results outside the subset make any return fail
+				opaqueRes = true
+				continue
+			}
 			for i := 0; i < len(f.Names) || i < 1; i++ {
 				rts = append(rts, x.coqType(f.Type, x.typeOf(f.Type)))
 			}
@@ -268,6 +297,9 @@ func xlateUnit(root string, u *xUnit, units []xUnit, ld *xLoader, records map[st
 		}
 	}
 	x.nres = len(rts)
+	if opaqueRes {
+		x.nres = -1
+	}
 	if sig, ok := x.info.ObjectOf(fd.Name).Type().(*types.Signature); ok {
 		for i := 0; i < sig.Results().Len(); i++ {
 			x.resTypes = append(x.resTypes, sig.Results().At(i).Type())
@@ -284,6 +316,91 @@ func xlateUnit(root string, u *xUnit, units []xUnit, ld *xLoader, records map[st
 	if u.Writer != nil {
 		x.retType = "(list N * " + x.retType + ")"
 	}
+	// receiver fields (receiver-fields mode) and oracles become parameters; scanned over the translated statements
+	recvAndOracles := func(stmts []ast.Stmt, isSlice bool) {
+		if u.Recv { // the receiver's fields read / assigned by the body (outside oracle expressions)
+			if fd.Recv == nil || len(fd.Recv.List[0].Names) != 1 {
+				x.fail(fd, "receiver-fields mode needs a named receiver")
+			}
+			x.recv = x.info.ObjectOf(fd.Recv.List[0].Names[0])
+			read, written := map[*types.Var]bool{}, map[*types.Var]bool{}
+			for _, scanned := range stmts {
+				ast.Inspect(scanned, func(n ast.Node) bool {
+					if st, isStmt := n.(ast.Stmt); isStmt {
+						for _, ig := range u.Ignore {
+							if x.src(st) == ig {
+								return false
+							}
+						}
+					}
+					if e, ok := n.(ast.Expr); ok {
+						if _, isOracle := u.Oracles[x.src(e)]; isOracle {
+							return false
+						}
+						if f := x.field(e); f != nil {
+							read[f] = true
+						}
+					}
+					switch n := n.(type) {
+					case *ast.CallExpr:
+						if len(n.Args) == 2 {
+							if f := x.atomicField(n); f != nil {
+								written[f] = true
+							}
+						}
+					case *ast.AssignStmt:
+						for _, l := range n.Lhs {
+							if f := x.field(l); f != nil {
+								written[f] = true
+							}
+						}
+					case *ast.IncDecStmt:
+						if f := x.field(n.X); f != nil {
+							written[f] = true
+						}
+					}
+					return true
+				})
+			}
+			var fs []*types.Var
+			for f := range read {
+				fs = append(fs, f)
+			}
+			sort.Slice(fs, func(i, j int) bool { return fs[i].Pos() < fs[j].Pos() })
+			for _, f := range fs {
+				params = append(params, "("+x.declare(f)+" : "+x.coqType(fd, f.Type())+")")
+				if written[f] {
+					if isSlice {
+						x.fail(fd, "a statement slice in receiver-fields mode assigns the field %s", f.Name())
+					}
+					x.recvOut = append(x.recvOut, f)
+					rts = append(rts, x.coqType(fd, f.Type()))
+				}
+			}
+			if !isSlice {
+				x.retType = "(" + strings.Join(rts, " * ") + ")"
+				if len(rts) == 1 {
+					x.retType = rts[0]
+				}
+			}
+		}
+		var onames []string
+		for n := range u.Oracles {
+			onames = append(onames, n)
+		}
+		sort.Strings(onames)
+		for _, n := range onames {
+			params = append(params, "("+u.Oracles[n].Name+" : "+u.Oracles[n].Type+")")
+		}
+		var mnames []string
+		for n := range u.Methods {
+			mnames = append(mnames, n)
+		}
+		sort.Strings(mnames)
+		for _, n := range mnames {
+			params = append(params, "("+u.Methods[n].Name+" : "+u.Methods[n].Type+")")
+		}
+	}
 	body := fd.Body.List
 	var stateT, final string
 	if u.From == "" { // whole function
@@ -293,10 +410,13 @@ func xlateUnit(root string, u *xUnit, units []xUnit, ld *xLoader, records map[st
 		var ptrTypes []string
 		for _, f := range fd.Type.Params.List {
 			for _, id := range f.Names {
-				if id.Name == "_" {
-					x.fail(id, "blank parameters are outside the subset")
+				if id.Name == "_" { // never referenced
+					continue
 				}
 				obj := x.info.ObjectOf(id)
+				if u.Recv && !x.translatable(obj.Type()) { // e.g. an interface used in oracle expressions only: any other use fails
+					continue
+				}
 				if u.State != nil {
 					if x.src(f.Type) == "*bytes.Reader" { // the library object: part of the state
 						continue
@@ -338,60 +458,7 @@ func xlateUnit(root string, u *xUnit, units []xUnit, ld *xLoader, records map[st
 		if u.Fuel {
 			params = append([]string{"(fuel : nat)"}, params...)
 		}
-		if u.Recv { // the receiver's fields read / assigned by the body (outside oracle expressions)
-			if fd.Recv == nil || len(fd.Recv.List[0].Names) != 1 {
-				x.fail(fd, "receiver-fields mode needs a named receiver")
-			}
-			x.recv = x.info.ObjectOf(fd.Recv.List[0].Names[0])
-			read, written := map[*types.Var]bool{}, map[*types.Var]bool{}
-			ast.Inspect(fd.Body, func(n ast.Node) bool {
-				if e, ok := n.(ast.Expr); ok {
-					if _, isOracle := u.Oracles[x.src(e)]; isOracle {
-						return false
-					}
-					if f := x.field(e); f != nil {
-						read[f] = true
-					}
-				}
-				switch n := n.(type) {
-				case *ast.AssignStmt:
-					for _, l := range n.Lhs {
-						if f := x.field(l); f != nil {
-							written[f] = true
-						}
-					}
-				case *ast.IncDecStmt:
-					if f := x.field(n.X); f != nil {
-						written[f] = true
-					}
-				}
-				return true
-			})
-			var fs []*types.Var
-			for f := range read {
-				fs = append(fs, f)
-			}
-			sort.Slice(fs, func(i, j int) bool { return fs[i].Pos() < fs[j].Pos() })
-			for _, f := range fs {
-				params = append(params, "("+x.declare(f)+" : "+x.coqType(fd, f.Type())+")")
-				if written[f] {
-					x.recvOut = append(x.recvOut, f)
-					rts = append(rts, x.coqType(fd, f.Type()))
-				}
-			}
-			x.retType = "(" + strings.Join(rts, " * ") + ")"
-			if len(rts) == 1 {
-				x.retType = rts[0]
-			}
-		}
-		var onames []string
-		for n := range u.Oracles {
-			onames = append(onames, n)
-		}
-		sort.Strings(onames)
-		for _, n := range onames {
-			params = append(params, "("+u.Oracles[n].Name+" : "+u.Oracles[n].Type+")")
-		}
+		recvAndOracles(fd.Body.List, false)
 		if u.Writer != nil {
 			params = append(params, "(out : list N)")
 			stateT, final = "(list N)", "Next out"
@@ -439,11 +506,15 @@ func xlateUnit(root string, u *xUnit, units []xUnit, ld *xLoader, records map[st
 		body = body[first : last+1]
 		lo, hi := body[0].Pos(), body[len(body)-1].End()
 		var free []*types.Var
+		var recvObj types.Object // receiver-fields mode: the receiver itself is not a parameter, its fields are
+		if u.Recv && fd.Recv != nil && len(fd.Recv.List[0].Names) == 1 {
+			recvObj = x.info.ObjectOf(fd.Recv.List[0].Names[0])
+		}
 		seen := map[*types.Var]bool{}
 		for _, s := range body {
 			ast.Inspect(s, func(n ast.Node) bool {
 				if id, ok := n.(*ast.Ident); ok {
-					if v, ok := x.info.Uses[id].(*types.Var); ok && !v.IsField() && !seen[v] && v.Parent() != p.pkg.Scope() && v.Parent() != types.Universe &&
+					if v, ok := x.info.Uses[id].(*types.Var); ok && !v.IsField() && !seen[v] && types.Object(v) != recvObj && v.Parent() != p.pkg.Scope() && v.Parent() != types.Universe &&
 						!(lo <= v.Pos() && v.Pos() < hi) && fd.Pos() <= v.Pos() && v.Pos() < fd.End() {
 						seen[v] = true
 						free = append(free, v)
@@ -458,6 +529,7 @@ func xlateUnit(root string, u *xUnit, units []xUnit, ld *xLoader, records map[st
 			x.paramNames = append(x.paramNames, x.names[v])
 			x.isParam[v] = true
 		}
+		recvAndOracles(body, true)
 		if u.State != nil { // state mode: the state is the last parameter and the first component of what is returned
 			params = append(params, "(rd : "+u.State.Type+")")
 			x.paramNames = append(x.paramNames, "rd")
@@ -534,6 +606,7 @@ func xlateUnit(root string, u *xUnit, units []xUnit, ld *xLoader, records map[st
 		term, stateT, _ = x.state(fd, outs)
 		final = "Next " + term
 	}
+	x.fnBody = fd.Body.List
 	x.body = body
 	if len(body) > 0 {
 		x.lo, x.hi = body[0].Pos(), body[len(body)-1].End()
